@@ -21,8 +21,28 @@ package proofsvalidator
 //@ pred PPRef(p *protocol.PreparedProof) = p.PreprepareBlockRef()
 //@ pred PRef(p *protocol.PreparedProof) = p.PrepareBlockRef()
 
+// Completeness (C11): the conditions under which a non-empty proof is accepted - the negation of every rejecting branch.
+// The quorum clause is stated for every id list that enumerates the PREPARE senders followed by the proposal's sender
+// (the list the function builds is one of them).
+//@ pred ProofGood(p *protocol.PreparedProof, h primitives.BlockHeight, v primitives.View, km interfaces.KeyManager, members []interfaces.CommitteeMember) =
+//@   | p.PreprepareBlockRef().MessageType() == protocol.LEAN_HELIX_PREPREPARE && p.PrepareBlockRef().MessageType() == protocol.LEAN_HELIX_PREPARE
+//@   | && p.PreprepareBlockRef().BlockHeight() == h && p.PreprepareBlockRef().View() < v
+//@   | && (forall qids []primitives.MemberId :: len(qids) == seq_len(p, "PrepareSenders") + 1
+//@   |      && (forall qk :: 0 <= qk && qk < seq_len(p, "PrepareSenders") ==> qids[qk] == seq_at(p, "PrepareSenders", qk).MemberId())
+//@   |      && qids[seq_len(p, "PrepareSenders")] == p.PreprepareSender().MemberId()
+//@   |      ==> SW(qids, members, len(members)) >= Qz(SumMW(members, len(members))))
+//@   | && VerifiedMsg(km, p.PreprepareBlockRef().BlockHeight(), p.PreprepareBlockRef().Raw(), p.PreprepareSender().MemberId(), p.PreprepareSender().Signature())
+//@   | && p.PrepareBlockRef().BlockHash() == p.PreprepareBlockRef().BlockHash() && p.PrepareBlockRef().BlockHeight() == h && p.PrepareBlockRef().View() == p.PreprepareBlockRef().View()
+//@   | && (forall gk :: 0 <= gk && gk < seq_len(p, "PrepareSenders") ==>
+//@   |      VerifiedMsg(km, p.PrepareBlockRef().BlockHeight(), p.PrepareBlockRef().Raw(), seq_at(p, "PrepareSenders", gk).MemberId(), seq_at(p, "PrepareSenders", gk).Signature())
+//@   |      && seq_at(p, "PrepareSenders", gk).MemberId() != p.PreprepareSender().MemberId()
+//@   |      && (exists gi :: 0 <= gi && gi < len(members) && members[gi].Id == seq_at(p, "PrepareSenders", gk).MemberId()))
+//@   | && (forall gj, gk :: 0 <= gj && gj < gk && gk < seq_len(p, "PrepareSenders") ==> seq_at(p, "PrepareSenders", gj).MemberId() != seq_at(p, "PrepareSenders", gk).MemberId())
+
 //@ func ValidatePreparedProof
-//@   props C08 C07 C09
+//@   props C08 C07 C09 C11
+//@   ensures [C11:complete.a-good-proof-is-accepted] preparedProof != nil && len(preparedProof.Raw()) > 0 && ProofGood(preparedProof, targetHeight, targetView, keyManager, committeeMembers)
+//@     | && preparedProof.PreprepareSender().MemberId() == LeaderFn(calcLeaderId, preparedProof.PreprepareBlockRef().View()) ==> result
 //@   requires len(committeeMembers) >= 1 && SumMW(committeeMembers, len(committeeMembers)) < 2^64
 //@   ensures [empty-proof-is-valid] (preparedProof == nil || len(preparedProof.Raw()) == 0) ==> result
 //@   ensures [sound.height] result && preparedProof != nil && len(preparedProof.Raw()) > 0 ==> preparedProof.PreprepareBlockRef().BlockHeight() == targetHeight && preparedProof.PrepareBlockRef().BlockHeight() == targetHeight
